@@ -404,11 +404,14 @@ def normalized(facts, fn, e):
     return None
 
 
-def rule_norm_route(ctx):
+def rule_norm_route(ctx, only=None, floor=14):
+    """only: restrict to bodies whose path contains one of these substrings (used by C02 / C05 for their own clauses)."""
     facts = ctx.facts
     n = 0
     skip_bodies = ("pattern::", "chars::", "score::<impl config::Config>", "fuzzy_optimal::next_m_cell", "matrix::", "utf32_str::", "config::")
     for b in facts.bodies_of(M):
+        if only is not None and not any(o in b["path"] for o in only):
+            continue
         if b.get("impl_trait") in ("std::cmp::PartialEq", "std::cmp::PartialOrd", "std::cmp::Ord", "std::hash::Hash", "std::fmt::Debug", "std::clone::Clone"):
             continue
         if any(b["path"].startswith(s) for s in skip_bodies):
@@ -456,7 +459,9 @@ def rule_norm_route(ctx):
                 ctx.ok(site(fn, bi, si), "raw byte comparison only under ignore_case == false on ASCII data (the ASCII normalizer is then the identity)")
                 continue
             ctx.violation(key, site(fn, bi, si), "haystack character reaches a comparison with the needle without passing the configured normalizer: %s %s %s" % (show(a)[:90], op, show(b2)[:60]))
-    ctx.floor("haystack/needle comparison sites", n, 14)
+    ctx.floor("haystack/needle comparison sites", n, floor)
+    if only is not None:
+        return
     # setup() stores the normalized character back into the view on every iteration
     st = get_fn(facts, M, "fuzzy_optimal::<impl matrix::MatcherDataView<'_, H>>::setup")
     stores = []
